@@ -14,3 +14,26 @@ package v1alpha1
 
 //@ func ConcurrencySpec.GetMaxConcurrency
 //@   ensures [C05,C06] result == c.GetMaxConcurrency()
+
+// Generated deep copies (zz_generated.deepcopy.go): ASSUMED contract. The copy is a fresh object that is
+// field-wise equal; its annotation / label maps and its finalizer / task slices are fresh copies too, so that
+// writes to the copy never reach the original. Other nested pointers are modelled as shared (assumption: the
+// callers under contract do not write through them).
+//@ pure sameMap(a map[string]string, b map[string]string) bool =
+//@     (b == nil ==> a == nil) && (b != nil ==> a != nil && (forall k string :: (k in a) == (k in b) && a[k] == b[k]))
+
+//@ extern func Job.DeepCopy
+//@   params in
+//@   fresh result
+//@   ensures in != nil ==> result != nil
+//@   ensures in != nil ==> result.TypeMeta == in.TypeMeta && result.Spec == in.Spec
+//@   ensures in != nil ==> result.Name == in.Name && result.Namespace == in.Namespace && result.UID == in.UID && result.GenerateName == in.GenerateName
+//@        && result.ResourceVersion == in.ResourceVersion && result.Generation == in.Generation && result.CreationTimestamp == in.CreationTimestamp
+//@        && result.DeletionTimestamp == in.DeletionTimestamp && result.OwnerReferences == in.OwnerReferences
+//@   ensures in != nil ==> sameMap(result.Annotations, in.Annotations) && (in.Annotations != nil ==> fresh(result.Annotations) && result.Annotations != in.Annotations)
+//@   ensures in != nil ==> sameMap(result.Labels, in.Labels) && (in.Labels != nil ==> fresh(result.Labels) && result.Labels != in.Labels)
+//@   ensures in != nil ==> len(result.Finalizers) == len(in.Finalizers) && (forall i int :: 0 <= i && i < len(in.Finalizers) ==> result.Finalizers[i] == in.Finalizers[i])
+//@   ensures in != nil ==> result.Status.Phase == in.Status.Phase && result.Status.State == in.Status.State && result.Status.Condition == in.Status.Condition
+//@        && result.Status.StartTime == in.Status.StartTime && result.Status.CreatedTasks == in.Status.CreatedTasks && result.Status.RunningTasks == in.Status.RunningTasks
+//@        && result.Status.ParallelStatus == in.Status.ParallelStatus
+//@   ensures in != nil ==> len(result.Status.Tasks) == len(in.Status.Tasks) && (forall i int :: 0 <= i && i < len(in.Status.Tasks) ==> result.Status.Tasks[i] == in.Status.Tasks[i])
